@@ -13,7 +13,9 @@ def run(tier, opts):
                "guard bounding it: WorkBounded holds with the range guards and fails without either (non-vacuity). The harness sets every numeric field "
                "of accepted proofs (toy + shipped, 7 layouts) to 0,1,2,2^16,2^40,2^64-1,2^64,2^128,p-1,p-2, alone, in pairs and with consistent "
                "re-declarations, and runs the real verifier under an event budget of 40 x (number of values in the proof) + 2000 hooked events (every "
-               "hash, transcript operation, coset and query is an event) and a 20 s wall clock: exhausting either is a violation. "
+               "hash, transcript operation, coset and query is an event) and a 20 s wall clock, and under an allocation meter (global allocator of the harness: peak live bytes and largest single request of the "
+               "verifying thread, budget 2 KiB x values + 1 MiB; honest runs need about 150 bytes per value); validate_public_input, verify_public_input and "
+               "StarkConfig::validate are also run alone on every mutated proof under the same meter: exhausting any budget is a violation. "
                "non-trivial = distinct recipes")
     ck.assumptions = ["work is counted in hooked events (hashes, transcript operations, FRI cosets); pure field arithmetic between events is bounded by the 252-bit exponent size",
                       "time and memory are measured, not modelled"]
@@ -46,6 +48,8 @@ def run(tier, opts):
         ck.extra.setdefault("recipes_run", {})[b] = summ["recipes"]
         ck.extra.setdefault("max_events_per_value", {})[b] = summ["max_events_per_leaf"]
         ck.extra.setdefault("max_ms", {})[b] = summ["max_ms"]
+        ck.extra.setdefault("max_bytes_per_value", {})[b] = summ["max_bytes_per_value"]
+        ck.extra.setdefault("honest_peak_bytes", {})[b] = summ["honest_peak_bytes"]
         ck.extra.setdefault("honest_events", {})[b] = summ["honest_events"]
         ck.evaluations += summ["recipes"]
         for i in range(summ["recipes"]):
